@@ -198,6 +198,51 @@ func bitsFor(n int) int {
 // ModelEncode serialises the array exactly as Model.Block.marshal (encode tbl a) does: an
 // independent encoder (bit-string based), not a call into the labels package.
 func ModelEncode(a []uint64, g [3]int, tbl []uint64) []byte {
+	return modelEncode(a, g, tbl, false)
+}
+
+// SparseEncode serialises the array as a block whose all-zero sub-blocks are left uninitialised
+// (NumSBLabels = 0, no indices, no values), as the block format allows and clients may POST; label 0
+// is in the table only if tbl contains it.  The table must hold at least two labels.
+func SparseEncode(a []uint64, g [3]int, tbl []uint64) []byte {
+	return modelEncode(a, g, tbl, true)
+}
+
+// SparseTable: the distinct labels of the array, without 0 when 0 only occurs in all-zero sub-blocks.
+func SparseTable(a []uint64, g [3]int) []uint64 {
+	nx, ny := 8*g[0], 8*g[1]
+	zeroNeeded := false
+	for sz := 0; sz < g[2]; sz++ {
+		for sy := 0; sy < g[1]; sy++ {
+			for sx := 0; sx < g[0]; sx++ {
+				hasZero, hasOther := false, false
+				for z := 0; z < 8; z++ {
+					for y := 0; y < 8; y++ {
+						for x := 0; x < 8; x++ {
+							if a[((sz*8+z)*ny+(sy*8+y))*nx+sx*8+x] == 0 {
+								hasZero = true
+							} else {
+								hasOther = true
+							}
+						}
+					}
+				}
+				if hasZero && hasOther {
+					zeroNeeded = true
+				}
+			}
+		}
+	}
+	var t []uint64
+	for _, l := range TableOrder(a, "first") {
+		if l != 0 || zeroNeeded {
+			t = append(t, l)
+		}
+	}
+	return t
+}
+
+func modelEncode(a []uint64, g [3]int, tbl []uint64, sparse bool) []byte {
 	nx, ny := 8*g[0], 8*g[1]
 	pos := map[uint64]uint32{}
 	for i, l := range tbl {
@@ -239,6 +284,10 @@ func ModelEncode(a []uint64, g [3]int, tbl []uint64) []byte {
 					}
 				}
 				var w2 [2]byte
+				if sparse && len(order) == 1 && order[0] == 0 {
+					nsb = append(nsb, w2[:]...) // uninitialised sub-block: 0 labels, nothing else
+					continue
+				}
 				binary.LittleEndian.PutUint16(w2[:], uint16(len(order)))
 				nsb = append(nsb, w2[:]...)
 				for _, l := range order {
